@@ -21,7 +21,7 @@ from decimal import InvalidOperation
 from itertools import repeat, chain
 from warnings import warn
 
-from .grammar import PVLGrammar, ODLGrammar, PDSGrammar
+from .grammar import PVLGrammar, ODLGrammar, PDSGrammar, OmniGrammar
 from .collections import Quantity
 from .exceptions import QuantityError
 
@@ -442,13 +442,17 @@ class PDSLabelDecoder(ODLDecoder):
     default to a PDS3Grammar() object.
     """
 
-    def __init__(self, grammar=None, quantity_cls=None):
+    def __init__(self, grammar=None, quantity_cls=None, real_cls=None):
         self.errors = []
 
         if grammar is None:
-            super().__init__(grammar=PDSGrammar(), quantity_cls=quantity_cls)
-        else:
-            super().__init__(grammar=grammar, quantity_cls=quantity_cls)
+            grammar = PDSGrammar()
+
+        super().__init__(
+            grammar=grammar,
+            quantity_cls=quantity_cls,
+            real_cls=real_cls
+        )
 
     def decode_datetime(self, value: str):
         """Overrides parent function since PDS3 forbids a timezone
